@@ -56,6 +56,7 @@ type Node struct {
 	out             chan wire.Message
 	lastReply       []*wire.BlockHeader
 	lastHeadersMsg  []*wire.BlockHeader // last headers message the service sent us
+	allHeadersMsgs  [][]*wire.BlockHeader
 	headersMsgs     int
 	allRequests     []*wire.MsgGetHeaders
 	checkedRequests int
@@ -182,6 +183,7 @@ func (n *Node) reader(conn net.Conn) {
 			n.mu.Lock()
 			n.gotHeaders = append(n.gotHeaders, len(m.Headers))
 			n.lastHeadersMsg = m.Headers
+			n.allHeadersMsgs = append(n.allHeadersMsgs, m.Headers)
 			n.headersMsgs++
 			n.mu.Unlock()
 		default:
@@ -335,6 +337,16 @@ func (n *Node) Ask(locator []chainhash.Hash, stop chainhash.Hash) {
 		_ = g.AddBlockLocatorHash(&h)
 	}
 	n.write(g)
+}
+
+// AnswersSince returns the headers messages that arrived after the first k.
+func (n *Node) AnswersSince(k int) [][]*wire.BlockHeader {
+	n.mu.Lock()
+	defer n.mu.Unlock()
+	if k > len(n.allHeadersMsgs) {
+		return nil
+	}
+	return append([][]*wire.BlockHeader{}, n.allHeadersMsgs[k:]...)
 }
 
 // Answer returns how many headers messages arrived so far and the last one.
